@@ -172,6 +172,18 @@ class Computator:
 
             page_layout = self.page_parser.process_page(image, page_layout)
 
+            if self.output_line_path is not None and page_layout is not None:
+                if 'lmdb' in self.output_line_path:
+                    lmdb_writer = LMDB_writer(self.output_line_path)
+                    lmdb_writer(page_layout, file_id)
+                else:
+                    for region in page_layout.regions:
+                        for line in region.lines:
+                            cv2.imwrite(
+                                os.path.join(self.output_line_path, f'{file_id}-{line.id}.jpg'),
+                                line.crop.astype(np.uint8),
+                                [int(cv2.IMWRITE_JPEG_QUALITY), 98])
+
             if self.output_xml_path is not None:
                 page_layout.to_pagexml(
                     os.path.join(self.output_xml_path, file_id + '.xml'))
@@ -185,18 +197,6 @@ class Computator:
 
             if self.output_alto_path is not None:
                 page_layout.to_altoxml(os.path.join(self.output_alto_path, file_id + '.xml'))
-
-            if self.output_line_path is not None and page_layout is not None:
-                if 'lmdb' in self.output_line_path:
-                    lmdb_writer = LMDB_writer(self.output_line_path)
-                    lmdb_writer(page_layout, file_id)
-                else:
-                    for region in page_layout.regions:
-                        for line in region.lines:
-                            cv2.imwrite(
-                                os.path.join(self.output_line_path, f'{file_id}-{line.id}.jpg'),
-                                line.crop.astype(np.uint8),
-                                [int(cv2.IMWRITE_JPEG_QUALITY), 98])
 
             all_lines = list(page_layout.lines_iterator())
             all_lines = sorted(all_lines, key=lambda x: x.id)
